@@ -151,6 +151,14 @@ class World(object):
         self._reset_sync_flags()
         deploy.update_database(self.conf)
 
+    def start_again(self):
+        """Start-up attempted again IN THE SAME PROCESS (what mod_wsgi and
+        uwsgi do when loading the application raised): module state - the
+        "already synchronised" flags - is whatever the failed attempt
+        left."""
+        from placement import deploy
+        deploy.update_database(self.conf)
+
     # -- snapshots (sqlite online backup API) ---------------------------
     def _side(self):
         c = sqlite3.connect(self.dbpath, isolation_level=None)
